@@ -302,9 +302,52 @@ def r6(ctx):
         ctx.ok(rule, "choice-smallest-tag", detail)
 
 
+def r7(ctx, rule="C16.R7"):
+    rule_text = ("root alternatives only: the tag of an untagged CHOICE is the smallest tag among its *root* alternatives - the number "
+                 "of alternatives looked at is `extension_after_index + 1` (all of them only when there is no marker), with no further "
+                 "max / widening - so that appending an extension alternative in a later version never moves the component inside an "
+                 "enclosing SET")
+    ctx.rule(rule, rule_text)
+    P = ctx.program()
+    bs = [b for b in P.find("asn1rs_model", "TagResolver::<'_>::resolve_type_tag_at_depth") if b.def_kind == "AssocFn"]
+    if len(bs) != 1:
+        ctx.fail(rule, "anchor-lost:resolve_type_tag_at_depth", "matched %d bodies" % len(bs))
+        return
+    b = bs[0]
+    O = X.Origins(b, P)
+    takes = [cs for cs in b.calls() if cs.name == "take"]
+    if not takes:
+        ctx.fail(rule, "choice-root-count#anchor-lost", "the alternatives are no longer limited with take(..): extension alternatives take "
+                                                        "part in the choice's tag", "%s:%d" % (b.file, b.line))
+        return
+    for cs in takes:
+        a = O.call_args(cs)[1]
+        e = F.strip_casts(a)
+        txt = F.rd(R.positional(a))
+        detail = {"take_argument": txt[:240]}
+        ok = e[0] == "call" and X.last_seg(e[1]) in ("unwrap_or_else", "unwrap_or", "map_or", "map_or_else") and "extension_after_index(" in txt
+        # the Some side adds one to the index
+        plus_one = False
+        for cl in P.closures_of(b):
+            if any(x[0] == "agg" and x[1] == "closure" and x[2] == cl.path for x in X.walk(a)):
+                for (op, val, pos), locs in F.const_ops(cl, X.Origins(cl, P)).items():
+                    if op == "Add" and val == 1:
+                        plus_one = True
+        detail["index_plus_one"] = plus_one
+        if not ok:
+            ctx.fail(rule, "choice-root-count", "the number of alternatives considered is `%s`, not `extension_after_index + 1` (or all "
+                                                "without a marker): extension alternatives can decide the choice's tag" % txt[:100], cs.loc(), detail)
+        elif not plus_one:
+            ctx.fail(rule, "choice-root-count", "the root alternatives are counted as `extension_after_index` without + 1: the last root "
+                                                "alternative is ignored", cs.loc(), detail)
+        else:
+            ctx.ok(rule, "choice-root-count", detail)
+
+
 def run(ctx):
     r1(ctx)
     r2_r3(ctx)
     r4(ctx)
     r5(ctx)
     r6(ctx)
+    r7(ctx)
